@@ -100,14 +100,22 @@ func procMain(casesPath, out, res string, shard, shards int, bin string) {
 	vh.Must(err, "cases")
 }
 
-func startChild(dir, bin string, ups map[string]string, shard int) (*child, map[string]*listenerInfo, error) {
+// startChild starts the binary with three listeners whose addresses are written in the form `bind` (see handover.go:
+// 127.0.0.1:p, 0.0.0.0:p, [::]:p, [::1]:p); the clients of the trial connect over the address family `via`.
+func startChild(dir, bin string, ups map[string]string, shard int, bind, via string) (*child, map[string]*listenerInfo, error) {
 	conf := filepath.Join(dir, "conf")
 	os.MkdirAll(conf, 0o755)
 	os.MkdirAll(filepath.Join(dir, "logs"), 0o755)
 	lis := map[string]*listenerInfo{
-		"http1": {name: "c11h1", addr: stableAddr(shard), dial: newH1},
-		"bolt":  {name: "c11bolt", addr: stableAddr(shard), dial: newBolt},
-		"http2": {name: "c11h2", addr: stableAddr(shard), dial: newH2},
+		"http1": {name: "c11h1", dial: newH1},
+		"bolt":  {name: "c11bolt", dial: newBolt},
+		"http2": {name: "c11h2", dial: newH2},
+	}
+	taken := map[string]bool{}
+	for _, n := range []string{"http1", "bolt", "http2"} {
+		lis[n].addr = handoverAddr(shard, bindHost[bind], taken)
+		taken[portOf(lis[n].addr)] = true
+		lis[n].daddr = viaHost[via] + ":" + portOf(lis[n].addr)
 	}
 	clusters := e2e.BuildClusters([]e2e.ClusterSpec{{Name: "uh1", Hosts: []string{ups["http1"]}}, {Name: "ubolt", Hosts: []string{ups["bolt"]}}, {Name: "uh2", Hosts: []string{ups["http2"]}}})
 	boltRoutes := []e2e.RouteSpec{{Prefix: "/", Cluster: "ubolt", TimeoutMs: 120000, Extra: func(r *v2.Router) {
@@ -153,7 +161,7 @@ func startChild(dir, bin string, ups map[string]string, shard int) (*child, map[
 		close(ch.done)
 	}()
 	for _, li := range lis {
-		if err := e2e.WaitListen(li.addr, 30*time.Second); err != nil {
+		if err := e2e.WaitListen(li.daddr, 30*time.Second); err != nil {
 			return ch, lis, fmt.Errorf("%s: %v", li.name, err)
 		}
 	}
@@ -177,15 +185,19 @@ func (c *child) exited(d time.Duration) bool {
 }
 
 func procTrial(tr *ttrace, arr *arrivals, c scase, dir, bin string, shard int, ups map[string]string) (result map[string]interface{}) {
-	ch, lis, err := startChild(dir, bin, ups, shard)
+	if c.Bind == "" || c.Via == "" || bindHost[c.Bind] == "" || viaHost[c.Via] == "" || !reaches(c.Bind, c.Via) {
+		// the plain set-up (also for a combination this machine cannot produce)
+		c.Bind, c.Via = "ip4", "ip4"
+	}
+	ch, lis, err := startChild(dir, bin, ups, shard, c.Bind, c.Via)
 	if err != nil {
 		// the proxy did not come up (port taken in the meantime, machine too loaded): nothing to judge
-		tr.Emit(vh.Ev{"ev": "run", "id": c.ID, "proto": c.Proto, "mode": c.Mode, "sig": c.Sig, "drain_ms": procDrainMs, "graceful_ms": gracefulMs, "case": c})
+		tr.Emit(vh.Ev{"ev": "run", "id": c.ID, "proto": c.Proto, "mode": c.Mode, "sig": c.Sig, "drain_ms": procDrainMs, "graceful_ms": gracefulMs, "bind": c.Bind, "via": c.Via, "case": c})
 		tr.Emit(vh.Ev{"ev": "abandon", "why": "start of the mosn binary: " + short(err)})
 		return map[string]interface{}{"id": c.ID, "proto": c.Proto, "mode": c.Mode, "sig": c.Sig, "abandoned": true}
 	}
 	li := lis[c.Proto]
-	tr.Emit(vh.Ev{"ev": "run", "id": c.ID, "proto": c.Proto, "mode": c.Mode, "sig": c.Sig, "drain_ms": procDrainMs, "graceful_ms": gracefulMs, "case": c})
+	tr.Emit(vh.Ev{"ev": "run", "id": c.ID, "proto": c.Proto, "mode": c.Mode, "sig": c.Sig, "drain_ms": procDrainMs, "graceful_ms": gracefulMs, "bind": c.Bind, "via": c.Via, "case": c})
 	names := []string{}
 	for n, cc := range c.Conns {
 		if cc.Open {
@@ -212,7 +224,7 @@ func procTrial(tr *ttrace, arr *arrivals, c scase, dir, bin string, shard int, u
 		}
 	}()
 	for _, n := range names {
-		cl, err := li.dial(li.addr)
+		cl, err := li.dial(li.daddr)
 		if err != nil {
 			fail("dial", err)
 		}
@@ -285,7 +297,7 @@ func procTrial(tr *ttrace, arr *arrivals, c scase, dir, bin string, shard int, u
 		wg.Wait()
 	}
 	probe := func(c string, when string) bool {
-		pc, err := dialRaw(li.addr)
+		pc, err := dialRaw(li.daddr)
 		tr.Emit(vh.Ev{"ev": "c.connect", "c": c, "ok": err == nil, "when": when})
 		if err == nil {
 			pc.Close()
@@ -337,7 +349,7 @@ func procTrial(tr *ttrace, arr *arrivals, c scase, dir, bin string, shard int, u
 			case <-time.After(250 * time.Millisecond):
 			}
 			i++
-			cl, err := li.dial(li.addr)
+			cl, err := li.dial(li.daddr)
 			if err != nil {
 				cmu.Lock()
 				tr.Emit(vh.Ev{"ev": "c.connect", "c": "s", "ok": false, "when": "during", "detail": short(err)})
